@@ -70,6 +70,9 @@ func genOne(c *hx.Ctx, class string) string {
 		maxTicks = 2
 	case "tie0":
 		n = r.Range(1, 10)
+	case "closedq":
+		n = r.Range(2, 16)
+		nQ = r.Range(2, 3)
 	}
 	pool := make([]int64, r.Range(1, 4))
 	for i := range pool {
@@ -103,7 +106,17 @@ func genOne(c *hx.Ctx, class string) string {
 		if nonneg && d < 0 {
 			d = -d % (3 * T)
 		}
-		reqs = append(reqs, rq{r.Intn(nQ), d, t})
+		q := r.Intn(nQ)
+		if class == "closedq" && r.Intn(2) == 0 {
+			// pairs due in the same tick: a closed-queue task with the earlier deadline, an open-queue task right after it
+			dl := int64(r.Range(2, 4))*T - int64(r.Range(0, 2))*int64(r.U64()%uint64(T/2))
+			if dl > t+1 {
+				reqs = append(reqs, rq{0, dl - t - 1, t})
+				reqs = append(reqs, rq{nQ - 1, dl - t, t})
+				continue
+			}
+		}
+		reqs = append(reqs, rq{q, d, t})
 	}
 	sort.SliceStable(reqs, func(i, j int) bool { return reqs[i].t < reqs[j].t })
 	var maxT int64
@@ -118,7 +131,7 @@ func genOne(c *hx.Ctx, class string) string {
 	}
 	var qs []string
 	for i := 0; i < nQ; i++ {
-		cp := n + 1
+		cp := len(reqs) + 1
 		var st int64
 		if class == "full" {
 			cp = r.Range(1, 2)
@@ -129,6 +142,15 @@ func genOne(c *hx.Ctx, class string) string {
 					maxT = st
 				}
 			}
+		}
+		if class == "closedq" && (i == 0 || r.Intn(3) == 0) && i < nQ-1 {
+			// this queue's close channel gets closed while delayed tasks for it are pending (never at a tick / send instant)
+			cl := int64(r.Range(0, 3))*T + int64(r.Range(1, 900))*1000003 + 13
+			if r.Intn(3) == 0 {
+				cp = r.Range(1, 2) // small and closed: after close the closeChan branch is the only one when full
+			}
+			qs = append(qs, fmt.Sprintf("%d:%d:%d", cp, st, cl))
+			continue
 		}
 		qs = append(qs, fmt.Sprintf("%d:%d", cp, st))
 	}
@@ -141,7 +163,7 @@ func genOne(c *hx.Ctx, class string) string {
 }
 
 func gen(c *hx.Ctx) {
-	classes := []string{"basic", "order", "basic", "tie0", "many", "full", "order"}
+	classes := []string{"basic", "order", "closedq", "tie0", "many", "full", "order", "basic", "closedq"}
 	N := c.Budget(12000, 150000)
 	for i := 0; i < N; i++ {
 		cl := classes[i%len(classes)]
